@@ -815,6 +815,10 @@ POP_SAMPLES = [
     ("/a/b", "/", "KEY", "b", "/b", "/a"),
     ("/a[&x]", "/", "ANCHOR", "x", "/&x", "/a"),
     ("/a/[&x]", "/", "ANCHOR", "x", "/&x", "/a"),
+    # the new last key ends in an (escaped) separator character that is its
+    # own: only the one joining separator goes with the popped segment
+    ("v1\\..name", ".", "KEY", "name", "name", "v1\\."),
+    ("/v1\\//name", "/", "KEY", "name", "/name", "/v1\\/"),
 ]
 
 
@@ -856,10 +860,10 @@ def d9_pop_forms(chk: Check) -> None:
             start = i
     body = fi.node.body[start + 1:] if start is not None else fi.node.body
     # statements between the rendering and the text read still matter
-    pre = [st for st in fi.node.body[:start or 0]
-           if isinstance(st, ast.Assign) and isinstance(st.value, ast.Call)
-           and isinstance(st.value.func, ast.Attribute)
-           and st.value.func.attr == "format"]
+    rend_at = next((i for i, st in enumerate(fi.node.body)
+                    if isinstance(st, ast.Assign) and
+                    src(st.targets[0]) == rend), -1)
+    pre = list(fi.node.body[rend_at + 1:start or 0])
     for text, sep, kind, attr, alone, want in POP_SAMPLES:
         env = {txt: Const(text), rend: Const(alone),
                "self.separator": Const(sep), "str(self.separator)": Const(sep),
